@@ -13,6 +13,7 @@ import (
 	"io"
 	"log"
 	"os"
+	"runtime/debug"
 	"strconv"
 	"strings"
 )
@@ -58,6 +59,9 @@ func verifInt(s string) int {
 func verifCall(op func([]string) string, args []string) (out string) {
 	defer func() {
 		if r := recover(); r != nil {
+			if os.Getenv("VERIF_TRACE") != "" {
+				fmt.Fprintf(os.Stderr, "panic: %v\n%s\n", r, debug.Stack())
+			}
 			out = "!panic " + verifHex([]byte(fmt.Sprint(r)))
 		}
 	}()
